@@ -49,6 +49,9 @@ type Muxer struct {
 	// We use map[uint32] instead map[uint16] as go runtime provide optimized hash functions for (u)int32/64 keys
 	esContexts              map[uint32]*esContext
 	tablesRetransmitCounter int
+
+	// Continuity counters of removed elementary streams: a PID that is added again carries on where it stopped
+	removedCCs map[uint32]wrappingCounter
 }
 
 type esContext struct {
@@ -94,6 +97,7 @@ func NewMuxer(ctx context.Context, w io.Writer, opts ...func(*Muxer)) *Muxer {
 
 		esContexts: map[uint32]*esContext{},
 		nextPID:    startPID,
+		removedCCs: map[uint32]wrappingCounter{},
 	}
 
 	m.bufWriter = astikit.NewBitsWriter(astikit.BitsWriterOptions{Writer: &m.buf})
@@ -131,7 +135,13 @@ func (m *Muxer) AddElementaryStream(es PMTElementaryStream) error {
 
 	m.pmt.ElementaryStreams = append(m.pmt.ElementaryStreams, &es)
 
-	m.esContexts[uint32(es.ElementaryPID)] = newEsContext(&es)
+	ctx := newEsContext(&es)
+	if cc, ok := m.removedCCs[uint32(es.ElementaryPID)]; ok {
+		// the PID was used before: no spurious continuity counter discontinuity
+		ctx.cc = cc
+		delete(m.removedCCs, uint32(es.ElementaryPID))
+	}
+	m.esContexts[uint32(es.ElementaryPID)] = ctx
 	// invalidate pmt cache
 	m.pmtBytes.Reset()
 	m.pmtUpdated = true
@@ -152,6 +162,9 @@ func (m *Muxer) RemoveElementaryStream(pid uint16) error {
 	}
 
 	m.pmt.ElementaryStreams = append(m.pmt.ElementaryStreams[:foundIdx], m.pmt.ElementaryStreams[foundIdx+1:]...)
+	if ctx, ok := m.esContexts[uint32(pid)]; ok {
+		m.removedCCs[uint32(pid)] = ctx.cc
+	}
 	delete(m.esContexts, uint32(pid))
 	m.pmtBytes.Reset()
 	m.pmtUpdated = true
